@@ -24,7 +24,7 @@ constexpr std::pair<IntT, IntT> reduce_fraction(IntT a, IntT b) {
 
 template <typename IntT>
 constexpr IntT log2i(IntT v) {
-  return (sizeof(IntT) << 3) - 1 - __builtin_clz(v);
+  return 63 - __builtin_clzll(static_cast<uint64_t>(v));
 }
 
 } // namespace phosg
